@@ -2,12 +2,12 @@
 package main
 
 import (
-	"strconv"
 	"context"
 	"encoding/json"
 	"fmt"
 	"net/http"
 	"sort"
+	"strconv"
 	"strings"
 	"sync"
 	"sync/atomic"
@@ -139,34 +139,230 @@ type echo struct {
 
 var inHandler, maxInHandler atomic.Int64
 
-type mwObs struct {
-	ReqID string
-	Tok   string
-	Tok2  string
-	Chain string
-	Sess  string
-	CSess string
+// ---------------------------------------------------------------------------------------------------------------------
+// "The session of that request" as an object with state.
+//
+// Every piece of server-side user code that processes a request (middleware, tool / prompt / resource handler, list
+// filter, notification handler) looks at the session the library hands it: which object it is (pointer, id, through
+// both accessors) and what is noted on it. The middleware (on the notification path, where no middleware runs: the
+// notification handler itself) first reads what is already on the session, then notes the token the context functions
+// derived and the request id on it; every stage additionally notes the request id under its own key, waits at the gate
+// of the round (when there is one) and reads everything back.
+
+type kReq struct{}
+
+// reqInfo is the identity of a request as the harness encoded it in the request id "<tok>#<what>#<round>#<g|f>"
+// (notifications carry the same string in params.nonce).
+type reqInfo struct {
+	ID    string `json:"id"`
+	Tok   string `json:"tok"`
+	What  string `json:"what"`
+	Round int    `json:"round"`
+	Gated bool   `json:"gated"`
 }
 
-func build(kind kit.Kind, K, F int, mw *[]mwObs, mwMu *sync.Mutex) *kit.Instance {
+func parseReq(id string) (reqInfo, bool) {
+	p := strings.Split(id, "#")
+	if len(p) != 4 {
+		return reqInfo{}, false
+	}
+	n, err := strconv.Atoi(p[2])
+	if err != nil {
+		return reqInfo{}, false
+	}
+	return reqInfo{ID: id, Tok: p[0], What: p[1], Round: n, Gated: p[3] == "g"}, true
+}
+
+type sessView struct {
+	Has bool   `json:"has"`
+	Ptr string `json:"ptr,omitempty"`
+	ID  string `json:"id,omitempty"`
+}
+
+func view(s mcp.Session) (sessView, mcp.Session) {
+	if s == nil {
+		return sessView{}, nil
+	}
+	p := fmt.Sprintf("%p", s)
+	if p == "0x0" || strings.HasPrefix(p, "%!p") {
+		return sessView{}, nil
+	}
+	return sessView{Has: true, Ptr: p, ID: s.GetID()}, s
+}
+
+type dataRead struct {
+	V  string `json:"v,omitempty"`
+	OK bool   `json:"ok"`
+}
+
+func getData(s mcp.Session, key string) dataRead {
+	v, ok := s.GetData(key)
+	if !ok {
+		return dataRead{}
+	}
+	str, isStr := v.(string)
+	if !isStr {
+		str = fmt.Sprintf("(%T)%v", v, v)
+	}
+	return dataRead{V: str, OK: true}
+}
+
+const (
+	keyOwner = "verif.owner" // the token the context functions derived for the request that wrote it
+	keyReq   = "verif.req"   // the id of the request that wrote it
+)
+
+// obs is one stage's view of one request.
+type obs struct {
+	Stage    string   `json:"stage"`
+	Req      reqInfo  `json:"request"`
+	Attrib   bool     `json:"attributed"` // the request this code ran for is known (id / nonce parsed)
+	Tok      string   `json:"ctx_tok"`
+	Tok2     string   `json:"ctx_tok2"`
+	Chain    string   `json:"ctx_chain"`
+	Sess     sessView `json:"session"`        // GetSessionFromContext
+	CSess    sessView `json:"client_session"` // ClientSessionFromContext
+	Wrote    bool     `json:"wrote_owner"`    // this stage noted owner + request id itself (before the gate)
+	Pre      dataRead `json:"owner_before_write"`
+	PreReq   dataRead `json:"req_before_write"`
+	Owner    dataRead `json:"owner_after_gate"`
+	ReqV     dataRead `json:"req_after_gate"`
+	Mine     dataRead `json:"stage_key_after_gate"`
+	Waited   bool     `json:"waited_at_gate"`
+	Released bool     `json:"held_until_released"` // left the gate because the harness opened it (not a watchdog / cancellation)
+}
+
+// scen is the state of one scenario (one server instance).
+type scen struct {
+	kind   kit.Kind
+	K, F   int
+	prefix string // gate name prefix, unique per scenario
+
+	released sync.Map // gate name -> true, set by the harness right before it opens the gate
+
+	mu    sync.Mutex
+	obs   []obs
+	notes int // notification-handler observations so far
+
+	// judgement state (harness goroutine only)
+	stats     map[string]*stageStat
+	sampled   map[string]bool
+	noteWaits int
+}
+
+type stageStat struct{ withSession, ownReads, bad int }
+
+// open releases a gate and says so (a handler that leaves its wait earlier was not held until the release).
+func (sc *scen) open(name string) {
+	sc.released.Store(name, true)
+	kit.G.Open(name)
+}
+
+// waitAt waits at a gate; released tells whether the wait ended because the harness opened the gate.
+func (sc *scen) waitAt(ctx context.Context, name string) (waited, released bool) {
+	if _, already := sc.released.Load(name); already {
+		return false, false // the round is over: nothing to meet
+	}
+	kit.G.Wait(ctx, name)
+	_, released = sc.released.Load(name)
+	return true, released
+}
+
+func (sc *scen) add(o obs) {
+	sc.mu.Lock()
+	sc.obs = append(sc.obs, o)
+	if o.Stage == "notification-handler" {
+		sc.notes++
+	}
+	sc.mu.Unlock()
+}
+
+// take hands the observations collected so far to the judge.
+func (sc *scen) take() []obs {
+	sc.mu.Lock()
+	defer sc.mu.Unlock()
+	out := sc.obs
+	sc.obs = nil
+	return out
+}
+
+func (sc *scen) noteCount() int64 {
+	sc.mu.Lock()
+	defer sc.mu.Unlock()
+	return int64(sc.notes)
+}
+
+func (sc *scen) callGate(round int) string { return fmt.Sprintf("%s-%d", sc.prefix, round) }
+func (sc *scen) stageGate(what string, round int) string {
+	return fmt.Sprintf("%s-%d/%s", sc.prefix, round, what)
+}
+
+// observe is run by every stage. hold is what separates the writes from the reads: the gate of the round (all K requests
+// of the round are inside when it opens) or, for the middleware, the rest of the request's processing.
+func (sc *scen) observe(ctx context.Context, stage string, ri reqInfo, attrib, writeOwner bool, hold func() (bool, bool)) {
+	o := obs{Stage: stage, Req: ri, Attrib: attrib, Tok: tokOf(ctx)}
+	o.Tok2, _ = ctx.Value(k2{}).(string)
+	o.Chain, _ = ctx.Value(k3{}).(string)
+	gs, _ := mcp.GetSessionFromContext(ctx)
+	var s, s2 mcp.Session
+	o.Sess, s2 = view(gs)
+	o.CSess, s = view(mcp.ClientSessionFromContext(ctx))
+	if s == nil {
+		s = s2
+	}
+	stageKey := "verif.stage." + stage
+	if s != nil {
+		if writeOwner {
+			o.Pre = getData(s, keyOwner)
+			o.PreReq = getData(s, keyReq)
+			s.SetData(keyOwner, o.Tok)
+			s.SetData(keyReq, ri.ID)
+			o.Wrote = true
+		}
+		s.SetData(stageKey, ri.ID)
+	}
+	o.Waited, o.Released = hold()
+	if s != nil {
+		o.Owner = getData(s, keyOwner)
+		o.ReqV = getData(s, keyReq)
+		o.Mine = getData(s, stageKey)
+	}
+	sc.add(o)
+}
+
+// holdAt waits at the stage gate of the request's round when the harness asked for it.
+func (sc *scen) holdAt(ctx context.Context, ri reqInfo, ok bool) func() (bool, bool) {
+	return func() (bool, bool) {
+		if !ok || !ri.Gated {
+			return false, false
+		}
+		return sc.waitAt(ctx, sc.stageGate(ri.What, ri.Round))
+	}
+}
+
+func build(sc *scen) *kit.Instance {
+	kind, K, F := sc.kind, sc.K, sc.F
 	middleware := func(next mcp.HandlerFunc) mcp.HandlerFunc {
-		return func(ctx context.Context, req *mcp.JSONRPCRequest) (mcp.JSONRPCMessage, error) {
-			o := mwObs{ReqID: fmt.Sprint(req.ID), Tok: tokOf(ctx)}
-			o.Tok2, _ = ctx.Value(k2{}).(string)
-			o.Chain, _ = ctx.Value(k3{}).(string)
-			if s, ok := mcp.GetSessionFromContext(ctx); ok && s != nil {
-				o.Sess = s.GetID()
+		return func(ctx context.Context, req *mcp.JSONRPCRequest) (resp mcp.JSONRPCMessage, err error) {
+			ri, ok := parseReq(fmt.Sprint(req.ID))
+			if !ok {
+				return next(ctx, req) // handshake / fence requests
 			}
-			if s := mcp.ClientSessionFromContext(ctx); s != nil {
-				o.CSess = s.GetID()
-			}
-			mwMu.Lock()
-			*mw = append(*mw, o)
-			mwMu.Unlock()
-			return next(ctx, req)
+			sc.observe(ctx, "middleware", ri, true, true, func() (bool, bool) {
+				resp, err = next(context.WithValue(ctx, kReq{}, ri), req)
+				return false, false
+			})
+			return resp, err
 		}
 	}
+	// filterStage: what a list filter sees of the request it is evaluated for (the request identity comes down from the
+	// middleware through the context).
+	filterStage := func(ctx context.Context, method string) {
+		ri, ok := ctx.Value(kReq{}).(reqInfo)
+		sc.observe(ctx, "filter|"+method, ri, ok, false, sc.holdAt(ctx, ri, ok))
+	}
 	toolFilter := func(ctx context.Context, tools []*mcp.Tool) []*mcp.Tool {
+		filterStage(ctx, "tools/list")
 		var out []*mcp.Tool
 		for _, t := range tools {
 			if allowed(t.Name, "t-", tokOf(ctx), K) {
@@ -176,6 +372,7 @@ func build(kind kit.Kind, K, F int, mw *[]mwObs, mwMu *sync.Mutex) *kit.Instance
 		return out
 	}
 	promptFilter := func(ctx context.Context, ps []*mcp.Prompt) []*mcp.Prompt {
+		filterStage(ctx, "prompts/list")
 		var out []*mcp.Prompt
 		for _, p := range ps {
 			if allowed(p.Name, "p-", tokOf(ctx), K) {
@@ -185,6 +382,7 @@ func build(kind kit.Kind, K, F int, mw *[]mwObs, mwMu *sync.Mutex) *kit.Instance
 		return out
 	}
 	resFilter := func(ctx context.Context, rs []*mcp.Resource) []*mcp.Resource {
+		filterStage(ctx, "resources/list")
 		var out []*mcp.Resource
 		for _, x := range rs {
 			if allowed(x.Name, "r-", tokOf(ctx), K) {
@@ -232,9 +430,15 @@ func build(kind kit.Kind, K, F int, mw *[]mwObs, mwMu *sync.Mutex) *kit.Instance
 			}
 		}
 		defer inHandler.Add(-1)
-		if g, _ := req.Params.Arguments["gate"].(string); g != "" {
-			kit.G.Wait(ctx, g)
-		}
+		nonce, _ := req.Params.Arguments["nonce"].(string)
+		ri, riOK := parseReq(nonce)
+		// note the request on its session, wait at the gate, read back
+		sc.observe(ctx, "handler", ri, riOK, false, func() (bool, bool) {
+			if g, _ := req.Params.Arguments["gate"].(string); g != "" {
+				return sc.waitAt(ctx, g)
+			}
+			return false, false
+		})
 		// re-read everything AFTER the wait: other requests have been inside meanwhile
 		e := echo{Tok1: tokOf(ctx)}
 		e.Tok2, _ = ctx.Value(k2{}).(string)
@@ -251,14 +455,39 @@ func build(kind kit.Kind, K, F int, mw *[]mwObs, mwMu *sync.Mutex) *kit.Instance
 		}
 		if sender, ok := mcp.GetNotificationSender(ctx); ok {
 			e.Sender = true
-			nonce, _ := req.Params.Arguments["nonce"].(string)
 			e.Notified = sender.SendCustomNotification("notifications/verif", map[string]interface{}{"nonce": nonce}) == nil
 		}
 		b, _ := json.Marshal(e)
 		return mcp.NewTextResult(string(b)), nil
 	})
+	// prompt / resource handlers and the notification handler: same observation (hidden from every list by the filters)
+	in.RegisterPrompt(&mcp.Prompt{Name: "ctxecho-p"}, func(ctx context.Context, req *mcp.GetPromptRequest) (*mcp.GetPromptResult, error) {
+		ri, ok := parseReq(req.Params.Arguments["nonce"])
+		sc.observe(ctx, "prompt-handler", ri, ok, false, sc.holdAt(ctx, ri, ok))
+		return &mcp.GetPromptResult{Description: "ok"}, nil
+	})
+	in.RegisterResource(&mcp.Resource{URI: "res://ctxecho", Name: "ctxecho-r"}, func(ctx context.Context, req *mcp.ReadResourceRequest) (mcp.ResourceContents, error) {
+		ri, ok := ctx.Value(kReq{}).(reqInfo)
+		sc.observe(ctx, "resource-handler", ri, ok, false, sc.holdAt(ctx, ri, ok))
+		return mcp.TextResourceContents{URI: "res://ctxecho", Text: "ok"}, nil
+	})
+	noteHandler := func(ctx context.Context, n *mcp.JSONRPCNotification) error {
+		nonce, _ := n.Params.AdditionalFields["nonce"].(string)
+		ri, ok := parseReq(nonce)
+		// no middleware runs for a notification: this handler notes the owner itself
+		sc.observe(ctx, "notification-handler", ri, ok, true, sc.holdAt(ctx, ri, ok))
+		return nil
+	}
+	switch {
+	case in.Server != nil:
+		in.Server.RegisterNotificationHandler(noteMethod, noteHandler)
+	case in.SSE != nil:
+		in.SSE.RegisterNotificationHandler(noteMethod, noteHandler)
+	}
 	return in
 }
+
+const noteMethod = "notifications/verif-note"
 
 func namesOf(frame string, field, key string) []string {
 	var m struct {
@@ -287,14 +516,31 @@ func answerFrame(frames []string) string {
 	return ""
 }
 
+// the stages a client walks through, one after the other, while its tool call is held at the gate of the round
+var sideStages = []struct{ what, method, field, key, prefix string }{
+	{"tools/list", "tools/list", "tools", "name", "t-"},
+	{"prompts/list", "prompts/list", "prompts", "name", "p-"},
+	{"resources/list", "resources/list", "resources", "name", "r-"},
+	{"prompts/get", "prompts/get", "", "", ""},
+	{"resources/read", "resources/read", "", "", ""},
+	{"note", noteMethod, "", "", ""},
+}
+
+// stageOfWhat maps the <what> of a request id to the stage that observes it downstream of the middleware.
+var stageOfWhat = map[string]string{
+	"call": "handler", "tools/list": "filter|tools/list", "prompts/list": "filter|prompts/list", "resources/list": "filter|resources/list",
+	"prompts/get": "prompt-handler", "resources/read": "resource-handler", "note": "notification-handler",
+}
+
+func stateless(kind kit.Kind) bool { return kind == kit.SLJSON || kind == kit.SLSSE }
+
 func scenario(r *vh.Run, kind kit.Kind, K, rounds int, Fopt ...int) {
 	F := 2
 	if len(Fopt) > 0 && kind != kit.LSSE {
 		F = Fopt[0]
 	}
-	var mw []mwObs
-	var mwMu sync.Mutex
-	in := build(kind, K, F, &mw, &mwMu)
+	sc := &scen{kind: kind, K: K, F: F, prefix: fmt.Sprintf("g-%s-%d-%d", kind, K, F)}
+	in := build(sc)
 	defer in.Close()
 	ctx := context.Background()
 	srvPtr := fmt.Sprintf("%p", in.Srv())
@@ -320,21 +566,36 @@ func scenario(r *vh.Run, kind kit.Kind, K, rounds int, Fopt ...int) {
 		}
 	}()
 	maxInHandler.Store(0)
+	sessOf := map[string]string{}
+	for _, cl := range clients {
+		sessOf[cl.tok] = cl.c.SessionID
+	}
+	stageGating := true            // circuit breaker: a stage that does not reach its gate switches the lock-step rounds off
+	allIn := map[string]bool{}     // "<round>/<what>": all K requests of that stage were inside at the same time
+	var notesAccepted atomic.Int64 // notification POSTs the server accepted
+	var sideFailed atomic.Int64    // prompts/get, resources/read answers that were not results
 	for round := 0; round < rounds; round++ {
-		gate := fmt.Sprintf("g-%s-%d-%d-%d", kind, K, F, round)
+		gate := sc.callGate(round)
+		// odd rounds are lock-step: every stage of the K clients meets at its own gate while the K tool calls are held;
+		// even rounds leave the side requests free-running next to the held calls
+		gated := stageGating && round%2 == 1
+		sfx := "f"
+		if gated {
+			sfx = "g"
+		}
 		var wg sync.WaitGroup
 		for _, cl := range clients {
 			wg.Add(1)
 			go func(cl cli) {
 				defer wg.Done()
-				// a mix: one gated call (overlaps with everyone else's), three lists
-				nonce := fmt.Sprintf("%s#%d", cl.tok, round)
-				id := fmt.Sprintf(`"%s#call#%d"`, cl.tok, round)
+				// a mix: one gated call (overlaps with everyone else's), three lists, a prompt, a resource, a notification
+				nonce := fmt.Sprintf("%s#call#%d#g", cl.tok, round)
+				id := `"` + nonce + `"`
 				var cwg sync.WaitGroup
 				cwg.Add(1)
 				go func() {
 					defer cwg.Done()
-					ex := cl.c.Post(ctx, []byte(fmt.Sprintf(`{"jsonrpc":"2.0","id":%s,"method":"tools/call","params":{"name":"ctxecho","arguments":{"gate":"%s","nonce":"%s"}}}`, id, gate, nonce)), kit.PostOpts{WantID: id, Wait: 30 * time.Second, Headers: map[string]string{"X-Verif-Barrier": fmt.Sprintf("%s/%d", gate, K)}})
+					ex := cl.c.Post(ctx, []byte(fmt.Sprintf(`{"jsonrpc":"2.0","id":%s,"method":"tools/call","params":{"name":"ctxecho","arguments":{"gate":"%s","nonce":"%s"}}}`, id, gate, nonce)), kit.PostOpts{WantID: id, Wait: 60 * time.Second, Headers: map[string]string{"X-Verif-Barrier": fmt.Sprintf("%s/%d", gate, K)}})
 					r.Eval(1)
 					f := answerFrame(ex.Frames)
 					var m struct {
@@ -346,6 +607,10 @@ func scenario(r *vh.Run, kind kit.Kind, K, rounds int, Fopt ...int) {
 					}
 					var e echo
 					if json.Unmarshal([]byte(f), &m) != nil || len(m.Result.Content) != 1 || json.Unmarshal([]byte(m.Result.Content[0].Text), &e) != nil {
+						if ex.TimedOut || f == "" {
+							r.Inconclusive(fmt.Sprintf("%s K=%d round %d: no answer to the context echo call of %s (timed out: %v)", kind, K, round, cl.tok, ex.TimedOut))
+							return
+						}
 						r.Violation(fmt.Sprintf("C13|%s|handler|call-failed", kind), fmt.Sprintf("%s: context echo call failed: %v", kind, ex.Frames), nil)
 						return
 					}
@@ -357,7 +622,7 @@ func scenario(r *vh.Run, kind kit.Kind, K, rounds int, Fopt ...int) {
 						r.Violation(fmt.Sprintf("C13|%s|handler|context-functions-order", kind), fmt.Sprintf("%s: second context function did not see the first one's value of this request: %q", kind, e.Tok2), wit)
 					case e.Chain != wantChain(cl.tok, F):
 						r.Violation(fmt.Sprintf("C13|%s|handler|context-functions-chain", kind), fmt.Sprintf("%s: with %d context functions the handler of %s saw the chain %q, registration order on this request gives %q", kind, F, cl.tok, e.Chain, wantChain(cl.tok, F)), wit)
-					case kind != kit.SLJSON && kind != kit.SLSSE && e.Sess != cl.c.SessionID:
+					case !stateless(kind) && e.Sess != cl.c.SessionID:
 						r.Violation(fmt.Sprintf("C13|%s|handler|session-of-other-request", kind), fmt.Sprintf("%s: handler of session %s saw session %q", kind, cl.c.SessionID, e.Sess), wit)
 					case e.CSess != e.Sess:
 						r.Violation(fmt.Sprintf("C13|%s|handler|client-session-differs", kind), fmt.Sprintf("%s: ClientSessionFromContext (%q) and GetSessionFromContext (%q) disagree", kind, e.CSess, e.Sess), wit)
@@ -388,20 +653,42 @@ func scenario(r *vh.Run, kind kit.Kind, K, rounds int, Fopt ...int) {
 						}
 					}
 				}()
-				for _, l := range []struct{ method, field, key, prefix string }{{"tools/list", "tools", "name", "t-"}, {"prompts/list", "prompts", "name", "p-"}, {"resources/list", "resources", "name", "r-"}} {
-					lid := fmt.Sprintf(`"%s#%s#%d"`, cl.tok, l.method, round)
-					ex := cl.c.Post(ctx, []byte(fmt.Sprintf(`{"jsonrpc":"2.0","id":%s,"method":"%s"}`, lid, l.method)), kit.PostOpts{WantID: lid, Wait: 30 * time.Second})
-					r.Eval(1)
-					got := namesOf(answerFrame(ex.Frames), l.field, l.key)
-					want := visible(l.prefix, cl.tok, K)
-					if l.method == "tools/list" {
-						// ctxecho is hidden by the filter for everyone (its name has no t- prefix match)
-					}
-					if strings.Join(got, ",") != strings.Join(want, ",") {
-						r.Violation(fmt.Sprintf("C13|%s|filter|%s|list-of-other-caller", kind, l.method), fmt.Sprintf("%s: %s for %s returned %v, the filter admits %v for this caller", kind, l.method, cl.tok, got, want),
-							map[string]interface{}{"requester": cl.tok, "got": got, "want": want})
-					} else {
-						r.Distinct(fmt.Sprintf("%s|filter|%s|K=%d", kind, l.method, K))
+				for _, l := range sideStages {
+					snonce := fmt.Sprintf("%s#%s#%d#%s", cl.tok, l.what, round, sfx)
+					lid := `"` + snonce + `"`
+					switch l.what {
+					case "note":
+						ex := cl.c.Post(ctx, []byte(fmt.Sprintf(`{"jsonrpc":"2.0","method":"%s","params":{"nonce":"%s"}}`, l.method, snonce)), kit.PostOpts{NoWait: true})
+						r.Eval(1)
+						if ex.HTTP != nil && ex.HTTP.Status >= 200 && ex.HTTP.Status < 300 {
+							notesAccepted.Add(1)
+						}
+					case "prompts/get", "resources/read":
+						params := fmt.Sprintf(`{"name":"ctxecho-p","arguments":{"nonce":"%s"}}`, snonce)
+						if l.what == "resources/read" {
+							params = `{"uri":"res://ctxecho"}`
+						}
+						ex := cl.c.Post(ctx, []byte(fmt.Sprintf(`{"jsonrpc":"2.0","id":%s,"method":"%s","params":%s}`, lid, l.method, params)), kit.PostOpts{WantID: lid, Wait: 60 * time.Second})
+						r.Eval(1)
+						if !strings.Contains(answerFrame(ex.Frames), `"result"`) {
+							sideFailed.Add(1)
+						}
+					default:
+						ex := cl.c.Post(ctx, []byte(fmt.Sprintf(`{"jsonrpc":"2.0","id":%s,"method":"%s"}`, lid, l.method)), kit.PostOpts{WantID: lid, Wait: 60 * time.Second})
+						r.Eval(1)
+						if ex.TimedOut {
+							r.Inconclusive(fmt.Sprintf("%s K=%d round %d: no answer to %s of %s", kind, K, round, l.method, cl.tok))
+							continue
+						}
+						got := namesOf(answerFrame(ex.Frames), l.field, l.key)
+						want := visible(l.prefix, cl.tok, K)
+						// ctxecho / ctxecho-p / ctxecho-r are hidden by the filters for everyone (no visible name matches them)
+						if strings.Join(got, ",") != strings.Join(want, ",") {
+							r.Violation(fmt.Sprintf("C13|%s|filter|%s|list-of-other-caller", kind, l.method), fmt.Sprintf("%s: %s for %s returned %v, the filter admits %v for this caller", kind, l.method, cl.tok, got, want),
+								map[string]interface{}{"requester": cl.tok, "got": got, "want": want})
+						} else {
+							r.Distinct(fmt.Sprintf("%s|filter|%s|K=%d", kind, l.method, K))
+						}
 					}
 				}
 				cwg.Wait()
@@ -412,40 +699,285 @@ func scenario(r *vh.Run, kind kit.Kind, K, rounds int, Fopt ...int) {
 		r.Max("handlers_overlapping_"+string(kind), int64(got))
 		if got < K {
 			r.Inconclusive(fmt.Sprintf("%s K=%d round %d: only %d handlers overlapped", kind, K, round, got))
+		} else {
+			allIn[fmt.Sprintf("%d/call", round)] = true
 		}
-		kit.G.Open(gate)
+		if gated {
+			// lock-step: while the K calls are held, the K requests of each stage meet at the stage's gate
+			for _, l := range sideStages {
+				sg := sc.stageGate(l.what, round)
+				if got == K && stageGating {
+					n := kit.G.AwaitWaiters(sg, K, 20*time.Second)
+					r.Max("stage_overlapping_"+string(kind), int64(n))
+					if n == K {
+						allIn[fmt.Sprintf("%d/%s", round, l.what)] = true
+					} else {
+						r.Inconclusive(fmt.Sprintf("%s K=%d round %d: only %d of %d %s requests reached the stage gate; lock-step rounds switched off for this scenario", kind, K, round, n, K, l.what))
+						stageGating = false
+					}
+				}
+				sc.open(sg)
+			}
+		}
+		sc.open(gate)
 		wg.Wait()
-	}
-	// middleware observations: token and session must be the request's own (request ids embed the token)
-	mwMu.Lock()
-	obs := append([]mwObs{}, mw...)
-	mwMu.Unlock()
-	sessOf := map[string]string{}
-	for _, cl := range clients {
-		sessOf[cl.tok] = cl.c.SessionID
-	}
-	checked := 0
-	for _, o := range obs {
-		i := strings.Index(o.ReqID, "#")
-		if i < 0 {
-			continue // handshake / fence requests
+		// every observation of the round is in now (each is recorded before its request is answered), except those of the
+		// legacy SSE server's notification handlers, which run detached from the POST: wait for them (watchdog, not an
+		// oracle; after one miss the wait is not repeated, late observations are judged with a later round)
+		for deadline := time.Now().Add(15 * time.Second); sc.noteWaits < 1 && sc.noteCount() < notesAccepted.Load(); {
+			if time.Now().After(deadline) {
+				sc.noteWaits++
+				r.Inconclusive(fmt.Sprintf("%s K=%d round %d: %d of %d accepted notifications reached the notification handler", kind, K, round, sc.noteCount(), notesAccepted.Load()))
+				break
+			}
+			time.Sleep(time.Millisecond)
 		}
-		tok := o.ReqID[:i]
-		r.Eval(1)
-		checked++
-		switch {
-		case o.Tok != tok || o.Tok2 != wantTok2(tok, F) || o.Chain != wantChain(tok, F):
-			r.Violation(fmt.Sprintf("C13|%s|middleware|context-value-of-other-request", kind), fmt.Sprintf("%s: middleware processing request %s saw context values %q / %q / %q", kind, o.ReqID, o.Tok, o.Tok2, o.Chain), o)
-		case kind != kit.SLJSON && kind != kit.SLSSE && o.Sess != sessOf[tok]:
-			r.Violation(fmt.Sprintf("C13|%s|middleware|session-of-other-request", kind), fmt.Sprintf("%s: middleware processing request %s saw session %q, the requester's is %q", kind, o.ReqID, o.Sess, sessOf[tok]), o)
-		}
+		judge(r, sc, sc.take(), sessOf, allIn)
 	}
-	if checked > 0 {
-		r.Distinct(fmt.Sprintf("%s|middleware|K=%d", kind, K))
+	if n := sideFailed.Load(); n > 0 {
+		r.Inconclusive(fmt.Sprintf("%s K=%d: %d prompts/get / resources/read requests were not answered with a result", kind, K, n))
 	}
-	r.Count("middleware_observations", int64(checked))
+	time.Sleep(20 * time.Millisecond)
+	judge(r, sc, sc.take(), sessOf, allIn) // stragglers
+	finishScenario(r, sc)
 	r.Max("context_function_barriers_met", barrierMet.Load())
 	r.Sample(map[string]interface{}{"kind": kind, "clients": K, "context_functions": F, "rounds": rounds, "max_handlers_overlapping": maxInHandler.Load()})
+}
+
+// tokOfValue: every value the stages note on a session starts with the token of the client it was written for
+// ("tok-3" or "tok-3#<what>#<round>#<g|f>").
+func tokOfValue(v string) string {
+	if i := strings.Index(v, "#"); i >= 0 {
+		return v[:i]
+	}
+	return v
+}
+
+// judge decides every observation of a scenario against the requester it was made for.
+//
+// What the statement promises about the session: it is the session OF THAT REQUEST (so: of the requesting client), the
+// stages processing the request see it, and no request of another client does. Hence, for every stage:
+//   - a session-data value written for another client must never be read (concurrent or earlier: a session that reaches
+//     a second client is not "the session of that request" any more);
+//   - what the request noted on its session must still be there for the later stages of the same request;
+//   - two requests of different clients that are inside at the same time must not hold the same session object.
+//
+// Left open (accepted): values noted by ANOTHER request of the SAME client. On a stateful / legacy server that is the
+// point of a session; on a stateless server the library happens to use one temporary session per request, the statement
+// does not say so - such carry-over is only counted.
+func judge(r *vh.Run, sc *scen, all []obs, sessOf map[string]string, allIn map[string]bool) {
+	kind, K := sc.kind, sc.K
+	if sc.stats == nil {
+		sc.stats = map[string]*stageStat{}
+		sc.sampled = map[string]bool{}
+	}
+	stats, sampled := sc.stats, sc.sampled
+	// the middleware notes owner and request id before the later stages of the same request run: they must find them
+	wroteByMW := map[string]bool{}
+	for _, o := range all {
+		if o.Stage == "middleware" && o.Wrote {
+			wroteByMW[o.Req.ID] = true
+		}
+	}
+	for _, o := range all {
+		if !o.Attrib {
+			r.Count("observations_without_request_identity", 1)
+			continue
+		}
+		r.Eval(1)
+		tok := o.Req.Tok
+		st := stats[o.Stage]
+		if st == nil {
+			st = &stageStat{}
+			stats[o.Stage] = st
+		}
+		sig := func(symptom string) string { return fmt.Sprintf("C13|%s|%s|%s", kind, o.Stage, symptom) }
+		// context values (the tool handler's are judged on the wire, from its echo)
+		if o.Stage != "handler" {
+			ctxBad := o.Tok != tok || o.Tok2 != wantTok2(tok, sc.F) || o.Chain != wantChain(tok, sc.F)
+			if ctxBad && o.Stage == "notification-handler" && o.Tok == "" && o.Tok2 == "" && o.Chain == "" {
+				r.Count("notification_handler_without_context_values", 1) // presence there is not documented
+				ctxBad = false
+			}
+			if ctxBad {
+				st.bad++
+				r.Violation(sig("context-value-of-other-request"), fmt.Sprintf("%s: %s processing request %s saw context values %q / %q / %q", kind, o.Stage, o.Req.ID, o.Tok, o.Tok2, o.Chain), o)
+				continue
+			}
+		}
+		if o.Stage == "middleware" {
+			r.Count("middleware_observations", 1)
+		}
+		s := o.CSess
+		if !s.Has {
+			s = o.Sess
+		}
+		if !s.Has {
+			r.Count("observations_without_session_"+string(kind), 1)
+			if kind.Stateful() || kind == kit.LSSE {
+				if o.Stage == "middleware" || o.Stage == "handler" {
+					st.bad++
+					r.Violation(sig("session-of-other-request"), fmt.Sprintf("%s: %s processing request %s saw no session, the requester's is %q", kind, o.Stage, o.Req.ID, sessOf[tok]), o)
+				}
+			}
+			continue
+		}
+		st.withSession++
+		if o.Sess.Has && o.CSess.Has && o.Sess.Ptr != o.CSess.Ptr {
+			st.bad++
+			r.Violation(sig("client-session-differs"), fmt.Sprintf("%s: %s processing request %s: ClientSessionFromContext (%s %q) and GetSessionFromContext (%s %q) are different objects", kind, o.Stage, o.Req.ID, o.CSess.Ptr, o.CSess.ID, o.Sess.Ptr, o.Sess.ID), o)
+			continue
+		}
+		if (kind.Stateful() || kind == kit.LSSE) && s.ID != sessOf[tok] {
+			st.bad++
+			r.Violation(sig("session-of-other-request"), fmt.Sprintf("%s: %s processing request %s saw session %q, the requester's is %q", kind, o.Stage, o.Req.ID, s.ID, sessOf[tok]), o)
+			continue
+		}
+		// session data
+		bad := false
+		check := func(name string, d dataRead, want string, mustBeThere bool) {
+			if bad {
+				return
+			}
+			switch {
+			case !d.OK:
+				if mustBeThere {
+					bad = true
+					r.Violation(sig("session-data-not-visible"), fmt.Sprintf("%s: %s processing request %s: %s, noted on the request's session earlier in the same request, is gone", kind, o.Stage, o.Req.ID, name), o)
+				}
+			case tokOfValue(d.V) != tok:
+				bad = true
+				r.Violation(sig("session-data-of-other-client"), fmt.Sprintf("%s: %s processing request %s of %s read %s = %q from its session: noted by a request of another client", kind, o.Stage, o.Req.ID, tok, name, d.V), o)
+			case d.V == want:
+				st.ownReads++
+			default:
+				// another request of the same client
+				if stateless(kind) {
+					r.Count("stateless_carry_over_same_client", 1)
+				} else {
+					r.Count("same_client_other_request_values", 1)
+				}
+			}
+		}
+		upstream := o.Wrote || wroteByMW[o.Req.ID]
+		if o.Wrote {
+			check("owner (before this request wrote)", o.Pre, tok, false)
+			check("request id (before this request wrote)", o.PreReq, o.Req.ID, false)
+		}
+		check("owner", o.Owner, tok, upstream)
+		check("request id", o.ReqV, o.Req.ID, upstream)
+		check("the stage's own note", o.Mine, o.Req.ID, true)
+		if bad {
+			st.bad++
+			continue
+		}
+		if !sampled[o.Stage] && K == 2 && sc.F == 2 && o.Req.Round == 1 {
+			sampled[o.Stage] = true
+			if (kind == kit.SLJSON && (o.Stage == "handler" || o.Stage == "filter|tools/list")) || (kind == kit.SJSON && o.Stage == "notification-handler") {
+				r.Sample(map[string]interface{}{"kind": kind, "session_observation": o})
+			}
+		}
+	}
+	// live-object comparison: requests that were inside at the same time (all K calls held; all K requests of a stage at
+	// the stage's gate while the calls were held) must not share a session object across clients
+	byRound := map[int][]obs{}
+	for _, o := range all {
+		if o.Attrib && o.Waited && stageOfWhat[o.Req.What] == o.Stage {
+			byRound[o.Req.Round] = append(byRound[o.Req.Round], o)
+		}
+	}
+	for round, os := range byRound {
+		if !allIn[fmt.Sprintf("%d/call", round)] {
+			continue
+		}
+		cohorts := map[string][]obs{}
+		for _, o := range os {
+			cohorts[o.Req.What] = append(cohorts[o.Req.What], o)
+		}
+		for what, co := range cohorts {
+			if !allIn[fmt.Sprintf("%d/%s", round, what)] {
+				continue
+			}
+			live := co
+			if what != "call" {
+				// the calls that were still held when this stage met (they left only when the harness released them)
+				live = append([]obs{}, co...)
+				for _, c := range cohorts["call"] {
+					if c.Released {
+						live = append(live, c)
+					}
+				}
+			}
+			sessOfObs := func(o obs) sessView {
+				if o.CSess.Has {
+					return o.CSess
+				}
+				return o.Sess
+			}
+			groups := map[string][]obs{} // session object -> the live requests holding it
+			compared := 0
+			for _, o := range live {
+				if s := sessOfObs(o); s.Has {
+					compared++
+					groups[s.Ptr] = append(groups[s.Ptr], o)
+				}
+			}
+			owner := groups
+			for ptr, g := range groups {
+				// a member of this stage (for the call cohort: a call) sharing the object with a live request of another client
+				var m, x *obs
+				for i := range g {
+					if g[i].Req.What != what {
+						continue
+					}
+					for j := range g {
+						if g[j].Req.Tok != g[i].Req.Tok {
+							m, x = &g[i], &g[j]
+							break
+						}
+					}
+					if m != nil {
+						break
+					}
+				}
+				if m == nil {
+					continue
+				}
+				stage := stageOfWhat[what]
+				r.Violation(fmt.Sprintf("C13|%s|%s|session-object-shared-between-clients", kind, stage), fmt.Sprintf("%s: requests %s and %s of different clients, inside at the same time, were handed the same session object %s (ids %q / %q)", kind, m.Req.ID, x.Req.ID, ptr, sessOfObs(*m).ID, sessOfObs(*x).ID),
+					map[string]interface{}{"first": *m, "second": *x})
+				if st := stats[stage]; st != nil {
+					st.bad++
+				}
+			}
+			if compared >= 2 {
+				r.Count("live_session_objects_compared", int64(compared))
+				if stateless(kind) {
+					r.Count("stateless_live_session_objects_compared", int64(compared))
+					r.Max("stateless_distinct_live_sessions", int64(len(owner)))
+				}
+			}
+		}
+	}
+}
+
+// finishScenario turns what the judge accumulated over the rounds of a scenario into evidence.
+func finishScenario(r *vh.Run, sc *scen) {
+	kind, K := sc.kind, sc.K
+	for stage, st := range sc.stats {
+		r.Count("session_data_own_reads", int64(st.ownReads))
+		r.Count("observations_with_session", int64(st.withSession))
+		if stage == "middleware" && st.withSession+st.bad > 0 {
+			r.Distinct(fmt.Sprintf("%s|middleware|K=%d", kind, K))
+		}
+		if st.ownReads > 0 && st.bad == 0 {
+			r.Distinct(fmt.Sprintf("%s|session-data|%s|K=%d", kind, stage, K))
+		}
+	}
+	if sc.stats["middleware"] == nil {
+		// the middleware ran for no request at all: nothing about it was observed
+		r.Inconclusive(fmt.Sprintf("%s K=%d: no middleware observation", kind, K))
+	}
 }
 
 func main() {
@@ -454,15 +986,20 @@ func main() {
 	r := vh.NewRun("C13", "exploration")
 	for _, kind := range []kit.Kind{kit.SJSON, kit.SSSE, kit.SLJSON, kit.SLSSE, kit.LSSE} {
 		for _, K := range []int{2, 8, r.Pick(16, 32)} {
-			scenario(r, kind, K, r.Pick(25, 1000))
+			scenario(r, kind, K, r.Pick(26, 1000))
 		}
 	}
+	// sessions disabled: no session is handed out; the context values are still the request's own
+	scenario(r, kit.SNoSess, 8, r.Pick(10, 200))
 	// the number of registered context functions is a configuration dimension of its own
 	for _, kind := range []kit.Kind{kit.SJSON, kit.SSSE, kit.SLJSON, kit.SLSSE} {
 		for _, F := range []int{1, 3, 4, 5, 6, 7, 9, 12} {
 			scenario(r, kind, r.Pick(4, 8), r.Pick(8, 120), F)
 		}
 	}
-	r.Finish("K = 2 / 8 / 16-32 raw clients, each with a unique header token, against Streamable (stateful / stateless, JSON / SSE answers) and legacy SSE servers configured with two HTTP context functions (the second derives its value from the first's; a second sweep registers 1, 3-7, 9 and 12 of them, each appending to a chain value, and lets the K requests of a round meet inside the first context function so that the context-function stages overlap), a tool / prompt / resource list filter keyed on the token, and a middleware; per round every client issues one gated tool call (all K handlers are inside at the same time, then released together) and three list requests; each echo (context values, session via both accessors, server handle, notification sender by effect) and each list must be the requester's own; middleware observations are joined to requests through the request id. Distinct = (server kind, stage, K).",
-		[]string{"presence is required only where documented: context-function values everywhere, the session in handlers, server handle and sender in tool handlers", "stateless sessions are per-request temporaries, so only token isolation and accessor agreement are checked there"})
+	if r.Counter("session_data_own_reads") == 0 || r.Counter("live_session_objects_compared") == 0 || r.Counter("stateless_live_session_objects_compared") == 0 {
+		r.Fatal("no session data was read back / no live session objects were compared (stateless servers included): the session part of the property was not exercised")
+	}
+	r.Finish("K = 2 / 8 / 16-32 raw clients, each with a unique header token, against Streamable (stateful / stateless, JSON / SSE answers; sessions disabled with K = 8) and legacy SSE servers configured with two HTTP context functions (the second derives its value from the first's; a second sweep registers 1, 3-7, 9 and 12 of them, each appending to a chain value, and lets the K requests of a round meet inside the first context function so that the context-function stages overlap), a tool / prompt / resource list filter keyed on the token, and a middleware; per round every client issues one gated tool call (all K handlers are inside at the same time, then released together) and, next to it, three list requests, a prompts/get, a resources/read and a notification with a registered server-side handler; in every second round these six stages are lock-step too (the K requests of a stage meet at a gate inside the filter / handler while the K calls are held). Each echo (context values, session via both accessors, server handle, notification sender by effect) and each list must be the requester's own; every stage records the session object it is handed (pointer, id, both accessors) and uses it as state: the middleware (the notification handler on its path) reads what is on the session, notes the derived token and the request id on it, every stage notes the request id under its own key, waits, and reads all of it back - a value noted for another client is a violation in every configuration, a note of the same request that is gone is one, and requests of different clients inside at the same time must hold different session objects. Observations are joined to requests through the request id. Distinct = (server kind, stage, K).",
+		[]string{"presence is required only where documented: context-function values everywhere (not in notification handlers), the session in handlers and middlewares of servers that issue session ids, server handle and sender in tool handlers", "stateless sessions: the statement promises isolation between clients; that the library uses one temporary session per request is not part of it, so a value carried over from another request of the SAME client is only counted (stateless_carry_over_same_client), not a violation", "session objects are compared by pointer only between requests that were inside at the same time (address reuse after a request has ended proves nothing)"})
 }
